@@ -122,6 +122,19 @@ DiffSpec(S, R) ==
 \cup { [k |-> "ModifyTable", t |-> t, ch |-> TableDiff(S[t], R[t]), to |-> Absent] :
           t \in {u \in Present(S) \cap Present(R) : S[u] # R[u]} }
 
+\* ---- diff policy (C19): change kinds disabled by the policy never appear, at any nesting level; everything else still does ---
+DiffSpecSkip(S, R, K) ==
+  LET D == DiffSpec(S, R) IN
+    { x \in D : x.k \notin K /\ x.k # "ModifyTable" }
+    \cup { [x EXCEPT !.ch = { y \in x.ch : y.k \notin K }] : x \in { z \in D : z.k = "ModifyTable" /\ "ModifyTable" \notin K /\ { y \in z.ch : y.k \notin K } # {} } }
+KindsOf(D) == { x.k : x \in D } \cup UNION { { y.k : y \in x.ch } : x \in { z \in D : z.k = "ModifyTable" } }
+SkipSound(S, R, K) ==
+  LET D == DiffSpec(S, R)  F == DiffSpecSkip(S, R, K) IN
+    /\ KindsOf(F) \cap K = {}
+    /\ \A x \in D : (x.k # "ModifyTable" /\ x.k \notin K) => x \in F
+    /\ \A x \in D : (x.k = "ModifyTable" /\ "ModifyTable" \notin K) =>
+          \A y \in x.ch : y.k \notin K => \E z \in F : z.k = "ModifyTable" /\ z.t = x.t /\ y \in z.ch
+
 \* ---- applying a change set (independent of the second argument of DiffSpec) ----------
 Ch(D, kind, name) == {x \in D : x.k = kind /\ x.n = name}
 One(X) == CHOOSE x \in X : TRUE
